@@ -30,25 +30,45 @@ Section wlive.
     wi_invsub : forall R aR k x, actors s !! R = Some aR -> MInvalidated k x ∈ inb (inbox s) R -> x ∈ a_deps aR
   }.
 
-  (* a step of R itself does not change what R believes about a dependency, except by consuming the latest word *)
-  Lemma view_step_R fx ok s s' R a e a' os ob rest k d :
+  (* every word about d was sent by d *)
+  Lemma mword_sender m k d b : mword m k d = Some b -> sender m = ATarget d.
+  Proof.
+    unfold mword, word_of. destruct m as [k' r|k' r|k' d' act|k' d']; try done;
+      destruct (decide (k' = k /\ d' = d)) as [[-> ->]|]; done.
+  Qed.
+
+  Lemma none_from_lastw pre k d : none_from sender (ATarget d) pre = true -> lastw pre k d = None.
+  Proof.
+    unfold none_from. rewrite forallb_forall. intros H. apply lastw_none. intros m Hm.
+    destruct (mword m k d) as [b|] eqn:E; [|done]. exfalso.
+    apply elem_of_list_In in Hm. specialize (H m Hm). apply negb_true_iff, bool_decide_eq_false in H.
+    apply H. by eapply mword_sender.
+  Qed.
+
+  (* a step of R itself does not change what R believes about a dependency, except by consuming the latest word; the message
+     it handles is any one that no earlier message of the same sender precedes *)
+  Lemma view_step_R fx ok s s' R a e a' os ob pre rest k d :
     actor_step fx ok a e = Some (a', os, ob) ->
-    (match e with EMsg m => inb (inbox s) R = m :: rest | _ => rest = inb (inbox s) R end) ->
-    inb (inbox s') R = rest ++ msgs_to R os ->
+    (match e with
+     | EMsg m => inb (inbox s) R = pre ++ m :: rest /\ none_from sender (sender m) pre = true
+     | _ => pre = [] /\ rest = inb (inbox s) R
+     end) ->
+    inb (inbox s') R = (pre ++ rest) ++ msgs_to R os ->
     lw R os k d = None ->
     view s' R a' k d = view s R a k d.
   Proof.
     intros Hst Hhead Hib Hlw. unfold view. rewrite Hib, lastw_app. unfold lw in Hlw. rewrite Hlw. cbn beta iota.
     pose proof (step_word _ _ _ _ _ _ _ k d Hst) as Hw.
     destruct e as [m| | |r].
-    - rewrite Hhead. cbn [lastw]. destruct (lastw rest k d) as [b|]; [done|].
-      unfold mword. destruct (word_of (EMsg m) k d) as [[]|].
-      + apply bool_decide_eq_true. tauto.
-      + apply bool_decide_eq_false. tauto.
-      + apply bool_decide_ext. tauto.
-    - subst rest. destruct (lastw (inb (inbox s) R) k d); [done|]. apply bool_decide_ext. cbn in Hw. tauto.
-    - subst rest. destruct (lastw (inb (inbox s) R) k d); [done|]. apply bool_decide_ext. cbn in Hw. tauto.
-    - subst rest. destruct (lastw (inb (inbox s) R) k d); [done|]. apply bool_decide_ext. cbn in Hw. tauto.
+    - destruct Hhead as [Hhead Hnf]. rewrite Hhead, !lastw_app. cbn [lastw].
+      destruct (lastw rest k d) as [b|]; [done|].
+      unfold mword in *. destruct (word_of (EMsg m) k d) as [b|] eqn:Hwm.
+      + rewrite (mword_sender m k d b Hwm) in Hnf. rewrite (none_from_lastw pre k d Hnf).
+        destruct b; [apply bool_decide_eq_true; tauto|apply bool_decide_eq_false; tauto].
+      + destruct (lastw pre k d); [done|]. apply bool_decide_ext. tauto.
+    - destruct Hhead as [-> ->]. cbn [app]. destruct (lastw (inb (inbox s) R) k d); [done|]. apply bool_decide_ext. cbn in Hw. tauto.
+    - destruct Hhead as [-> ->]. cbn [app]. destruct (lastw (inb (inbox s) R) k d); [done|]. apply bool_decide_ext. cbn in Hw. tauto.
+    - destruct Hhead as [-> ->]. cbn [app]. destruct (lastw (inb (inbox s) R) k d); [done|]. apply bool_decide_ext. cbn in Hw. tauto.
   Qed.
 
   (* a step of another actor: R's inbox only grows *)
@@ -67,13 +87,16 @@ Section wlive.
     intros Hwf HR Hd ->. destruct (Hwf R aR HR) as [_ Hg]. specialize (Hrank R _ _ R Hg Hd). lia.
   Qed.
 
-  Lemma winv_actor_step s s' t a e ok a' os ob rest :
+  Lemma winv_actor_step s s' t a e ok a' os ob pre rest :
     winv s -> wf s -> wf s' -> talk_inv g roots s' -> (forall dst k r, ~ msg_in s dst (MUnrequested k r)) ->
     actors s !! t = Some a ->
     actor_step true ok a e = Some (a', os, ob) ->
     actors s' = <[t := a']> (actors s) ->
-    (match e with EMsg m => inb (inbox s) t = m :: rest | _ => rest = inb (inbox s) t end) ->
-    (forall R, inb (inbox s') R = (if decide (R = t) then rest else inb (inbox s) R) ++ msgs_to R os) ->
+    (match e with
+     | EMsg m => inb (inbox s) t = pre ++ m :: rest /\ none_from sender (sender m) pre = true
+     | _ => pre = [] /\ rest = inb (inbox s) t
+     end) ->
+    (forall R, inb (inbox s') R = (if decide (R = t) then pre ++ rest else inb (inbox s) R) ++ msgs_to R os) ->
     termq s' ⊆ termq s -> (e = ETerm -> t ∈ termq s) ->
     winv s'.
   Proof.
@@ -83,7 +106,7 @@ Section wlive.
     assert (Hnt : e <> ETerm).
     { intros ->. specialize (Hterm eq_refl). rewrite (wi_termq _ Hwi) in Hterm. set_solver. }
     assert (Hnu : forall k r, e <> EMsg (MUnrequested k r)).
-    { intros k r ->. apply (Hnun (ATarget t) k r). apply msg_in_inb. rewrite Hhead. apply elem_of_list_here. }
+    { intros k r ->. apply (Hnun (ATarget t) k r). apply msg_in_inb. destruct Hhead as [-> _]. apply elem_of_mid. }
     assert (Hcalm' : calm a') by (eapply step_calm_w; [done|done|by eapply (wi_calm _ Hwi)]).
     assert (Hfl' : wflagsK a') by (eapply step_wflagsK; [done|by eapply (wi_flags _ Hwi)]).
     assert (Hreqs_mono : forall k r, r ∈ reqs a k -> r ∈ reqs a' k).
@@ -93,13 +116,16 @@ Section wlive.
     { intros x ax Hx. rewrite Hact in Hx. destruct (decide (x = t)) as [->|Hne].
       - rewrite lookup_insert in Hx. injection Hx as <-. by left.
       - rewrite lookup_insert_ne in Hx by done. by right. }
-    assert (Hib_t : inb (inbox s') t = rest ++ msgs_to t os) by (rewrite Hib; by rewrite decide_True).
+    assert (Hib_t : inb (inbox s') t = (pre ++ rest) ++ msgs_to t os) by (rewrite Hib; by rewrite decide_True).
     assert (Hib_o : forall R, R <> t -> inb (inbox s') R = inb (inbox s) R ++ msgs_to R os)
       by (intros R Hne; rewrite Hib; by rewrite decide_False).
     assert (Hself : forall k d, d <> t -> lw t os k d = None).
     { intros k d Hne. eapply step_lastword_other; [done|]. by rewrite Hid. }
-    assert (Hrest : forall m, m ∈ rest -> m ∈ inb (inbox s) t).
-    { intros m Hm. destruct e; try (by subst rest). rewrite Hhead. by apply elem_of_list_further. }
+    assert (Hrest : forall m, m ∈ pre ++ rest -> m ∈ inb (inbox s) t).
+    { intros m Hm. destruct e as [m0| | |r0]; try (destruct Hhead as [-> ->]; exact Hm). destruct Hhead as [-> _].
+      apply elem_of_app in Hm as [?|?]; apply elem_of_app; [by left|right; by apply elem_of_list_further]. }
+    assert (Hhd : forall m, e = EMsg m -> m ∈ inb (inbox s) t).
+    { intros m ->. destruct Hhead as [-> _]. apply elem_of_mid. }
     split.
     - (* dom *)
       intros x Hx. rewrite Hact. destruct (decide (x = t)) as [->|Hne]; [rewrite lookup_insert; eauto|].
@@ -132,14 +158,14 @@ Section wlive.
           -- left. rewrite (Hib_o d Hned). apply elem_of_app. by left.
           -- right. by left.
           -- right. right. split; [done|].
-             by rewrite (view_step_R true ok s s' t a e a' os ob rest k d Hst Hhead Hib_t (Hself k d HdR)).
+             by rewrite (view_step_R true ok s s' t a e a' os ob pre rest k d Hst Hhead Hib_t (Hself k d HdR)).
         * left. rewrite (Hib_o d Hned). apply elem_of_app. right. by apply elem_of_msgs_to.
       + destruct (Hlook d ad Hd) as [[-> ->]|[Hned Hd0]].
         * assert (Hown_iff : own a' k <-> own a k) by (unfold own; by rewrite Hk').
           destruct (wi_req _ Hwi R aR t a k HR0 Ha Hdep Hfan) as [Hp|[[Ho Hm]|[Hno Hv]]].
-          -- assert (Hcons : MRequested k (ATarget R) ∈ rest \/ e = EMsg (MRequested k (ATarget R))).
-             { destruct e as [m| | |r]; try (subst rest; by left). rewrite Hhead in Hp.
-               apply elem_of_cons in Hp as [<-|Hp]; [by right|by left]. }
+          -- assert (Hcons : MRequested k (ATarget R) ∈ pre ++ rest \/ e = EMsg (MRequested k (ATarget R))).
+             { destruct e as [m| | |r]; try (destruct Hhead as [-> ->]; by left). destruct Hhead as [Hhead _]. rewrite Hhead in Hp.
+               apply elem_of_mid_inv in Hp as [<-|Hp]; [by right|by left]. }
              destruct Hcons as [Hin| ->].
              ++ left. rewrite Hib_t. apply elem_of_app. by left.
              ++ destruct (decide (own a k)) as [Ho|Hno].
@@ -167,7 +193,7 @@ Section wlive.
       pose proof (dep_ne s' R aR d Hwf' HR Hdep) as HdR.
       destruct (Hlook R aR HR) as [[-> ->]|[HneR HR0]].
       + destruct (Hlook d ad Hd) as [[-> _]|[_ Hd0]]; [done|].
-        rewrite (view_step_R true ok s s' t a e a' os ob rest k d Hst Hhead Hib_t (Hself k d HdR)).
+        rewrite (view_step_R true ok s s' t a e a' os ob pre rest k d Hst Hhead Hib_t (Hself k d HdR)).
         by apply (wi_view _ Hwi).
       + destruct (Hlook d ad Hd) as [[-> ->]|[Hned Hd0]].
         * assert (Hown0 : own a k) by (unfold own in *; by rewrite <- Hk').
@@ -188,9 +214,10 @@ Section wlive.
       + destruct (Hlook d ad Hd) as [[-> _]|[_ Hd0]]; [done|].
         rewrite Hdeps' in Hdep.
         destruct (wi_fresh _ Hwi t a d ad k Ha Hd0 Hdep Hown Hnreq) as [Hl Hu].
-        assert (Hparts : lastw rest k d = None /\ word_of e k d = None).
-        { destruct e as [m| | |r]; try (subst rest; by split). rewrite Hhead in Hl. cbn in Hl.
-          destruct (lastw rest k d); [done|]. by split. }
+        assert (Hparts : lastw (pre ++ rest) k d = None /\ word_of e k d = None).
+        { destruct e as [m| | |r]; try (destruct Hhead as [-> ->]; by split). destruct Hhead as [Hhead _].
+          rewrite Hhead, lastw_app in Hl. cbn [lastw] in Hl. rewrite lastw_app.
+          destruct (lastw rest k d); [done|]. unfold mword in Hl. destruct (word_of (EMsg m) k d); [done|]. by split. }
         destruct Hparts as [Hl1 Hl2]. split.
         * rewrite Hib_t, lastw_app. fold (lw t os k d). rewrite (Hself k d HdR). exact Hl1.
         * apply (step_word _ _ _ _ _ _ _ k d Hst). by rewrite Hl2.
@@ -213,7 +240,7 @@ Section wlive.
       intros x ax k y Hx Hy. destruct (Hlook x ax Hx) as [[-> ->]|[_ Hx0]]; [|by eapply (wi_unavsub _ Hwi)].
       rewrite Hdeps'. destruct (step_unav_grow _ _ _ _ _ _ _ Hst k y Hy) as [Hold| ->].
       + by eapply (wi_unavsub _ Hwi).
-      + eapply (wi_invsub _ Hwi t a k y Ha). rewrite Hhead. apply elem_of_list_here.
+      + eapply (wi_invsub _ Hwi t a k y Ha). by apply Hhd.
     - (* invsub *)
       assert (Hnew : forall R aR k x, actors s' !! R = Some aR -> OMsg (ATarget R) (MInvalidated k x) ∈ os -> x ∈ a_deps aR).
       { intros R aR k x HR Hin. destruct (step_out_inval _ _ _ _ _ _ _ Hst _ _ _ Hin) as (-> & _ & Hreq).
